@@ -423,33 +423,35 @@ impl Exp {
     /// # Returns
     /// String representation with appropriate parentheses based on operator precedence
     pub fn to_string_with_precedence(&self, last_operator: BinOp) -> String {
-        let last_precedence = last_operator.precedence();
+        // without knowing the side, parenthesize as the right operand: it is
+        // the side on which a left-associative parent regroups
+        self.operand_to_string(last_operator, true)
+    }
+
+    /// Renders an operand of `parent`, wrapping it in parenthesis whenever
+    /// leaving them out would make the text parse with another grouping: a
+    /// looser operator, an operator of the same precedence on the side the
+    /// parent does not associate to (`a - (b - c)`), or a logic expression,
+    /// whose keyword operators all bind looser than arithmetic.
+    fn operand_to_string(&self, parent: BinOp, is_rhs: bool) -> String {
         match self {
             Exp::BinOp(op, lhs, rhs) => {
-                let string_lhs = lhs.to_string_with_precedence(*op);
-                let string_rhs = rhs.to_string_with_precedence(*op);
-                let precedence = op.precedence();
-                if precedence < last_precedence {
+                let string_lhs = lhs.operand_to_string(*op, false);
+                let string_rhs = rhs.operand_to_string(*op, true);
+                let regroups = op.precedence() == parent.precedence()
+                    && if is_rhs {
+                        parent.is_left_associative()
+                    } else {
+                        !op.is_left_associative()
+                    };
+                if op.precedence() < parent.precedence() || regroups {
                     format!("({} {} {})", string_lhs, op, string_rhs)
                 } else {
-                    //TODO improve this
-                    match last_operator {
-                        BinOp::Add
-                        | BinOp::Mul
-                        | BinOp::Div
-                        | BinOp::And
-                        | BinOp::Or
-                        | BinOp::Xor
-                        | BinOp::Implies
-                        | BinOp::Iff => {
-                            format!("{} {} {}", string_lhs, op, string_rhs)
-                        }
-                        BinOp::Sub => match rhs.is_leaf() {
-                            true => format!("{} {} {}", string_lhs, op, string_rhs),
-                            false => format!("{} {} ({})", string_lhs, op, string_rhs),
-                        },
-                    }
+                    format!("{} {} {}", string_lhs, op, string_rhs)
                 }
+            }
+            Exp::And(_) | Exp::Or(_) | Exp::Xor(_, _) | Exp::Implies(_, _) | Exp::Iff(_, _) => {
+                format!("({})", self)
             }
             _ => self.to_string(),
         }
@@ -575,9 +577,8 @@ impl fmt::Display for Exp {
                     .join(", ")
             ),
             Exp::BinOp(operator, lhs, rhs) => {
-                //TODO: add parenthesis when needed
-                let string_lhs = lhs.to_string_with_precedence(*operator);
-                let string_rhs = rhs.to_string_with_precedence(*operator);
+                let string_lhs = lhs.operand_to_string(*operator, false);
+                let string_rhs = rhs.operand_to_string(*operator, true);
                 format!("{} {} {}", string_lhs, operator, string_rhs)
             }
             Exp::UnOp(op, exp) => {
